@@ -146,7 +146,7 @@ def run_case(case):
             info["steps"] = steps
             peer.close()
             await asyncio.sleep(1)
-            await asyncio.wait_for(server.close(), 1e4)
+            await common.close_server(server)
 
         world.run(main())
         gc.collect()
